@@ -673,6 +673,48 @@ func unsendableProbe(role string) {
 	}
 }
 
+// C14 under back-pressure: the peer reads slowly (1.3 s before every read), the outbound buffer holds
+// one message, four TestRequests arrive in a row. Every one of them is answered by its Heartbeat,
+// however long the answers have to wait for room.
+func testRequestsUnderBackPressure(role string) {
+	mode := "testrequest-backpressure"
+	tags := []string{"role=" + role, "buf=1", "read-delay=1.3s"}
+	l, err := live.Start(live.Config{Role: role, Hb: 30, Buf: 1, WriteTimeout: 10 * time.Second})
+	if err != nil {
+		verdict("C14", mode, "setup", "fail: "+err.Error(), tags...)
+		return
+	}
+	defer l.Shutdown()
+	if !l.Logon(30) {
+		verdict("C14", mode, "logon", "fail: logon exchange did not complete", tags...)
+		return
+	}
+	l.SlowReads(1300 * time.Millisecond)
+	ids := []string{"bp-1", "bp-2", "bp-3", "bp-4"}
+	for _, id := range ids {
+		_ = l.Send(l.PeerMsg("1", "112="+id+"\x01"))
+	}
+	got := map[string]int{}
+	deadline := time.Now().Add(12 * time.Second)
+	for time.Now().Before(deadline) && len(got) < len(ids) {
+		m, ok := l.WaitType("0", time.Until(deadline))
+		if !ok {
+			break
+		}
+		if id, _ := live.Field(m.Raw, "112"); id != "" {
+			got[id]++
+		}
+	}
+	l.SlowReads(0)
+	for _, id := range ids {
+		if got[id] != 1 {
+			verdict("C14", mode, "answers", fmt.Sprintf("fail: TestRequest %s was answered by %d Heartbeat(s) while the peer read slowly and the outbound buffer (1) was full: %v", id, got[id], got), tags...)
+			return
+		}
+	}
+	verdict("C14", mode, "answers", "ok", tags...)
+}
+
 // C14 through a real connection: a TestRequest whose TestReqID is longer than any buffer on the
 // way (4 KiB, 64 KiB) is answered by one Heartbeat echoing it, byte for byte.
 func longTestRequest(role string, size int) {
@@ -764,6 +806,8 @@ func main() {
 		run(func() { longTestRequest("A", sz) })
 		run(func() { longTestRequest("I", sz) })
 	}
+	run(func() { testRequestsUnderBackPressure("A") })
+	run(func() { testRequestsUnderBackPressure("I") })
 	run(func() { unsendableProbe("A") })
 	run(func() { unsendableProbe("I") })
 	run(func() { resendTimerHeartbeats("A") })
